@@ -382,18 +382,68 @@ def guard_pages(rep, prog, ws, tag):
         rep.violation("GUARD", "allocator bodies" + tag, "allocate/deallocate bodies missing")
         return
 
-    # helpers between the allocator and the wrappers (e.g. a per-guard-page function) are folded in;
-    # the wrappers themselves and pure helpers that reach no wrapper (page rounding) stay calls
-    reach_w = {}
+    # every private helper of the allocator (per-guard-page functions, page rounding, offset helpers,
+    # system alloc/free shims) is folded in; only the wrappers stay calls.  Addresses and lengths are then
+    # compared as *linear forms* over P = page size, S = layout.size(), and opaque remainders, relative
+    # to a base pointer symbol - not as text.
+    al = inline(prog, al, keep=(lambda g: g.key in ws,))
+    de = inline(prog, de, keep=(lambda g: g.key in ws,))
+    from .. import lenck as L
 
-    def on_the_way(call, t):
-        if t.key in ws:
-            return False
-        if t.key not in reach_w:
-            reach_w[t.key] = any(k in ws for k in prog.reach_fns([t]))
-        return reach_w[t.key]
-    al = inline(prog, al, pick=on_the_way)
-    de = inline(prog, de, pick=on_the_way)
+    def int_form(e, depth=0):
+        if e is None or depth > 25:
+            return None
+        v = evaluate(e, {})
+        if isinstance(v, int) and not isinstance(v, bool):
+            return L.lin_const(v)
+        if e.k == "cast":
+            return int_form(e.a, depth + 1)
+        if e.k == "field" and e.b == "0" and e.a.k == "binop":
+            return int_form(E("binop", e.a.a.replace("WithOverflow", ""), e.a.b, e.a.c), depth + 1)
+        if e.k == "call":
+            p_ = e.a.path
+            if p_ in ("std::alloc::Layout::size", "core::alloc::Layout::size"):
+                return L.lin_var("S")
+            if (p_.endswith("::deref") and "PAGESIZE" in e.a.full) or p_ == "std::ops::Deref::deref":
+                return L.lin_var("P")
+            return L.lin_var(("expr", cm_repr(e)))
+        if e.k == "binop":
+            op = e.a.replace("WithOverflow", "").replace("Unchecked", "")
+            l_, r_ = int_form(e.b, depth + 1), int_form(e.c, depth + 1)
+            if l_ is None or r_ is None:
+                return None
+            if op == "Add":
+                return L.lin_add(l_, r_)
+            if op == "Sub":
+                return L.lin_add(l_, r_, -1)
+            if op == "Mul" and L.lin_is_const(l_):
+                return L.lin_scale(r_, l_[1])
+            if op == "Mul" and L.lin_is_const(r_):
+                return L.lin_scale(l_, r_[1])
+            if op == "Rem":
+                return L.lin_var(("rem", L.lin_repr(l_), L.lin_repr(r_)))
+            return L.lin_var(("expr", cm_repr(e)))
+        if e.k == "unop" and e.a == "Neg":
+            x = int_form(e.b, depth + 1)
+            return L.lin_scale(x, -1) if x is not None else None
+        return L.lin_var(("expr", cm_repr(e)))
+
+    def ptr_form(e, depth=0):
+        """(base symbol, byte offset as a linear form)"""
+        if e is None or depth > 25:
+            return None
+        if e.k == "cast":
+            return ptr_form(e.a, depth + 1)
+        if e.k == "call":
+            p_ = e.a.path
+            ax = call_arg_exprs(e.a)
+            if p_.endswith("ptr::<impl *mut T>::add") or p_.endswith("ptr::<impl *const T>::add") or p_.endswith("::offset") or p_.endswith("ptr::<impl *mut T>::sub") or p_.endswith("ptr::<impl *const T>::sub"):
+                b0 = ptr_form(ax[0], depth + 1)
+                n = int_form(ax[1], depth + 1)
+                if b0 is None or n is None:
+                    return None
+                return (b0[0], L.lin_add(b0[1], n, -1 if p_.endswith("::sub") else 1))
+        return (cm_repr(e), L.lin_const(0))
 
     def regions(g, want_kind):
         out = []
@@ -404,28 +454,66 @@ def guard_pages(rep, prog, ws, tag):
                     # slice built by from_raw_parts_mut(ptr_expr, len_expr)
                     if ex.k == "call" and ex.a.path.endswith("from_raw_parts_mut"):
                         pe, le = call_arg_exprs(ex.a)
-                        out.append((c, shape(pe), shape(le)))
+                        out.append((c, ptr_form(pe), int_form(le)))
                     else:
-                        out.append((c, "?", "?"))
+                        out.append((c, None, None))
         return out
+
+    def show(r):
+        c, pf, lf = r
+        return "(%s + %s, %s)" % (pf[0][:30] if pf else "?", L.lin_repr(pf[1]) if pf else "?", L.lin_repr(lf) if lf is not None else "?")
+    P, S = L.lin_var("P"), L.lin_var("S")
+    same = lambda a_, b_: a_ is not None and b_ is not None and not L.lin_vars(L.lin_add(a_, b_, -1)) and L.lin_add(a_, b_, -1).get(1, 0) == 0
     na = regions(al, ("protect", "NoAccess"))
     rw_al = regions(al, ("protect", "ReadWrite"))
     rw_de = regions(de, ("protect", "ReadWrite"))
-    rep.ob("GUARD", "allocate: two no-access guard regions" + tag, len(na) == 2,
-           "no-access regions in allocate: %s" % [(p, l) for _, p, l in na], loc=al.loc())
-    shapes_al = sorted((p, l) for _, p, l in na)
-    # deallocate must unprotect regions with the same offsets (relative to base) before free
-    shapes_de = sorted((p, l) for _, p, l in rw_de)
-    guard_de = [s for s in shapes_de if s[1] == "pagesize"]
-    rep.ob("GUARD", "allocate: fore guard at base, aft guard at base+page+round(size), one page each" + tag,
-           shapes_al == sorted([("base", "pagesize"), ("base+add(pagesize+round(size))", "pagesize")]),
-           "guard regions (pointer shape, length shape): %s" % shapes_al, loc=al.loc())
-    rep.ob("GUARD", "deallocate mirrors the guard offsets" + tag,
-           sorted(guard_de) == sorted([("base-page", "pagesize"), ("base-page+add(pagesize+round(size))", "pagesize")]),
-           "regions made read-write again in deallocate: %s" % shapes_de, loc=de.loc())
-    for c, p, l in rw_al:
+    good_shapes = all(r[1] is not None and r[2] is not None for r in na + rw_al + rw_de)
+    rep.ob("GUARD", "allocate: two no-access guard regions" + tag, len(na) == 2 and good_shapes,
+           "no-access regions in allocate: %s" % [show(r) for r in na], loc=al.loc())
+    if len(na) != 2 or not good_shapes:
+        return
+    # total size requested from the system: X + 2P, X = the room reserved for the data
+    sizes = []
+    for c in al.calls():
+        if c.path in ("libc::posix_memalign",) and len(c.args) == 3:
+            sizes.append(int_form(call_arg_exprs(c)[2]))
+    total = sizes[0] if len(sizes) == 1 else None
+    X = L.lin_add(total, L.lin_scale(P, 2), -1) if total is not None else None
+    bases = {r[1][0] for r in na + rw_al}
+    fore = [r for r in na if same(r[1][1], L.lin_const(0))]
+    aft = [r for r in na if r not in fore]
+    ok_al = len(bases) == 1 and len(fore) == 1 and len(aft) == 1 and X is not None and same(fore[0][2], P) and same(aft[0][2], P) and \
+        same(aft[0][1][1], L.lin_add(P, X))
+    rep.ob("GUARD", "allocate: fore guard at base, aft guard at base+page+room(size), one page each" + tag, ok_al,
+           "guard regions %s; system allocation of %s bytes" % ([show(r) for r in na], L.lin_repr(total) if total is not None else "?"), loc=al.loc())
+    # the room for the data is at least layout.size() and less than one page more: X - S = P - (S % P)
+    if X is not None:
+        slack = L.lin_add(X, S, -1)
+        vs = L.lin_vars(slack)
+        okx = len(vs) == 2 and "P" in vs and slack.get("P") == 1 and slack.get(1, 0) == 0 and \
+            any(isinstance(v_, tuple) and v_[0] == "rem" and slack[v_] == -1 and v_[1] == "S" and v_[2] == "P" for v_ in vs)
+        rep.ob("GUARD", "allocate: data room is size rounded up to the next page boundary" + tag, okx,
+               "room for the data = %s (expected S + P - S %% P)" % L.lin_repr(X), loc=al.loc())
+    for r in rw_al:
         rep.ob("GUARD", "allocate: data region at base+page, layout.size() bytes" + tag,
-               p == "base+add(pagesize)" and l == "size", "data region (%s, %s)" % (p, l), loc=c.loc())
+               same(r[1][1], P) and same(r[2], S), "data region %s" % show(r), loc=r[0].loc())
+    # deallocate mirrors the same offsets relative to its pointer (data pointer = base + page)
+    dbases = {r[1][0] for r in rw_de}
+    want_de = [(L.lin_const(0), S), (L.lin_scale(P, -1), P), (X, P)] if X is not None else []
+    got = [(r[1][1], r[2]) for r in rw_de]
+    ok_de = len(dbases) == 1 and len(got) == 3 and all(any(same(o, wo) and same(l_, wl) for o, l_ in got) for wo, wl in want_de)
+    rep.ob("GUARD", "deallocate mirrors the guard offsets" + tag, ok_de,
+           "regions made read-write again in deallocate: %s (expected data at ptr, fore guard at ptr-P, aft guard at ptr+room)" % [show(r) for r in rw_de], loc=de.loc())
+    frees = [c for c in de.calls() if c.path == "libc::free"]
+    if frees:
+        pf = ptr_form(call_arg_exprs(frees[0])[0])
+        rep.ob("GUARD", "deallocate frees the allocation base (ptr - page)" + tag, pf is not None and pf[0] in dbases and same(pf[1], L.lin_scale(P, -1)),
+               "free(%s + %s)" % (pf[0][:30] if pf else "?", L.lin_repr(pf[1]) if pf else "?"), loc=frees[0].loc())
+
+
+def cm_repr(e):
+    from ..expr import deep_repr
+    return deep_repr(e)
 
 
 def shape(e, depth=0):
